@@ -74,6 +74,7 @@ type world struct {
 	cfg  *ipsets.IPVersionConfig
 	ips  *ipsets.IPSets
 	K    map[string]*kset
+	prefixes []string // this instance's name prefixes (from the `new` op)
 	plan plan
 	// observation of the current Felix op
 	trace  []string
@@ -716,7 +717,27 @@ func (w *world) newFelix() {
 	w.sleeps = 0
 }
 
-func (w *world) owned(name string) bool { return w.cfg.OwnsIPSet(name) }
+// owned: the property's own statement of ownership (NOT the code's regexp): the name STARTS with one of this
+// instance's prefixes (the versioned current and historic prefixes, and the legacy set names).
+func (w *world) owned(name string) bool {
+	for _, p := range w.prefixes {
+		if strings.HasPrefix(name, p) {
+			return true
+		}
+	}
+	return false
+}
+
+// checkOwns ties the real IPVersionConfig.OwnsIPSet to "prefix-of" on every set name in the kernel.
+func (w *world) checkOwns() {
+	for n := range w.K {
+		if w.cfg.OwnsIPSet(n) != w.owned(n) {
+			w.h.OracleFail("owns-not-prefix-of", "OwnsIPSet disagrees with 'the name starts with one of the instance's prefixes'",
+				map[string]any{"set": n, "OwnsIPSet": w.cfg.OwnsIPSet(n), "prefixes": w.prefixes, "op": w.opDesc})
+		}
+		w.h.Count("owns-checked")
+	}
+}
 
 func (w *world) foreign() map[string]string {
 	out := map[string]string{}
@@ -729,6 +750,7 @@ func (w *world) foreign() map[string]string {
 }
 
 func (w *world) checkForeign(before map[string]string) {
+	w.checkOwns()
 	after := w.foreign()
 	for n, s := range before {
 		if after[n] != s {
@@ -777,7 +799,12 @@ func exec(w *world, op string) (string, string) {
 	w.opDesc = op
 	if ws[0] == "new" {
 		// new <prefixes> <main> <temp>: the prefix lists are those of felix/dataplane/driver.go
-		w.cfg = ipsets.NewIPVersionConfig(ipsets.IPFamilyV4, ipsets.IPSetNamePrefix, allHistoricIPSetNamePrefixes, legacyV4IPSetNames)
+		if strings.Contains(ws[2], "6") {
+			w.cfg = ipsets.NewIPVersionConfig(ipsets.IPFamilyV6, ipsets.IPSetNamePrefix, allHistoricIPSetNamePrefixes, nil)
+		} else {
+			w.cfg = ipsets.NewIPVersionConfig(ipsets.IPFamilyV4, ipsets.IPSetNamePrefix, allHistoricIPSetNamePrefixes, legacyV4IPSetNames)
+		}
+		w.prefixes = strings.Split(ws[1], ",")
 		w.K = map[string]*kset{}
 		w.dead = false
 		w.newFelix()
@@ -1052,8 +1079,10 @@ func (g *gen) ksetOp(name string) string {
 	return fmt.Sprintf("kset %s %s %s %s %s %s", name, typ, meta, genMembers(h, typ), b01(h.Intn(12) == 0), b01(h.Intn(10) == 0))
 }
 
+var genVer = "4" // IP version of the instance the current case drives
+
 func mainName(id string) string {
-	n := "cali40" + id
+	n := "cali" + genVer + "0" + id
 	if len(n) > 31 {
 		n = n[:31]
 	}
@@ -1063,14 +1092,25 @@ func mainName(id string) string {
 func genCase(h *rt.H) []string {
 	g := &gen{h: h, idType: map[string]string{}, live: map[string]bool{}}
 	g.ids = []string{"a", "b", "c", "s:Zq-_x", "longlonglonglonglonglong-1", "longlonglonglonglonglong-2"}
-	prefixes := []string{ipsets.IPSetNamePrefix + "4"}
-	for _, p := range allHistoricIPSetNamePrefixes {
-		prefixes = append(prefixes, p+"4")
+	// only the IPv4 instance is driven: member syntax (and so the fake kernel and the model) is IPv4-specific; the
+	// ownership regexp is built by the same code for both families, and the other family's names are foreign here
+	genVer = "4"
+	v, o := genVer, "6"
+	if v == "6" {
+		o = "4"
 	}
-	prefixes = append(prefixes, legacyV4IPSetNames...)
-	ops := []string{fmt.Sprintf("new %s %s4%s %s4%s", strings.Join(prefixes, ","), ipsets.IPSetNamePrefix, "0", ipsets.IPSetNamePrefix, "t")}
-	kernelNames := []string{"cali40a", "cali40b", "cali40c", "cali40old", "cali40s:Zq-_x", "cali4t0", "cali4t1", "cali4t3", "cali4x",
-		"felix-4abc", "felix-masq-ipam-pools", "felix-all-ipam-pools", "cali6abc", "cali60a", "calico", "foo", "KUBE-CLUSTER-IP", "felix-6x", "felix-other"}
+	prefixes := []string{ipsets.IPSetNamePrefix + v}
+	for _, p := range allHistoricIPSetNamePrefixes {
+		prefixes = append(prefixes, p+v)
+	}
+	if v == "4" {
+		prefixes = append(prefixes, legacyV4IPSetNames...)
+	}
+	ops := []string{fmt.Sprintf("new %s %s%s%s %s%s%s", strings.Join(prefixes, ","), ipsets.IPSetNamePrefix, v, "0", ipsets.IPSetNamePrefix, v, "t")}
+	kernelNames := []string{"cali" + v + "0a", "cali" + v + "0b", "cali" + v + "0c", "cali" + v + "0old", "cali" + v + "0s:Zq-_x", "cali" + v + "t0", "cali" + v + "t1", "cali" + v + "t3", "cali" + v + "x",
+		"felix-" + v + "abc", "felix-masq-ipam-pools", "felix-all-ipam-pools", "cali" + o + "abc", "cali" + o + "0a", "calico", "foo", "KUBE-CLUSTER-IP", "felix-" + o + "x", "felix-other",
+		// other software's sets whose names merely CONTAIN one of the instance's prefixes, a legacy name or a temp-set name
+		"backup-cali" + v + "0s:web", "k8s-felix-" + v + "-allow", "fw_cali" + v + "t0", "my-cali" + v + "0a", "x-felix-masq-ipam-pools", "old.felix-all-ipam-pools"}
 	// start state
 	for i := 0; i < h.Intn(7); i++ {
 		ops = append(ops, g.ksetOp(rt.Pick(h, kernelNames)))
@@ -1126,7 +1166,7 @@ func genCase(h *rt.H) []string {
 				var ns []string
 				for _, id := range g.ids {
 					if h.Intn(2) == 0 {
-						ns = append(ns, "cali40"+id)
+						ns = append(ns, "cali"+genVer+"0"+id)
 					}
 				}
 				if len(ns) == 0 {
